@@ -18,44 +18,53 @@ Record world := {
   w_script : list (N * N);       (* (kind, amount): 0 ok, 1 fail, 2 zero/eof, 3 pending -> future dropped *)
   w_broker : N;                  (* 0 = manual, 1 = automatic acknowledgements *)
   w_log : list text;             (* most recent first *)
-  w_handles : list op }.
+  w_handles : list op;
+  w_waits : N                    (* time advances spent waiting inside the current operation *) }.
 
 Definition upd_sess (w : world) (s : session) : world :=
   {| w_sess := s; w_conn := w_conn w; w_live := w_live w; w_event := w_event w; w_now := w_now w; w_inq := w_inq w;
      w_last_arrival := w_last_arrival w; w_txbuf := w_txbuf w; w_script := w_script w; w_broker := w_broker w;
-     w_log := w_log w; w_handles := w_handles w |}.
+     w_log := w_log w; w_handles := w_handles w; w_waits := w_waits w |}.
 Definition upd_live (w : world) (conn live : bool) (ev : N) : world :=
   {| w_sess := w_sess w; w_conn := conn; w_live := live; w_event := ev; w_now := w_now w; w_inq := w_inq w;
      w_last_arrival := w_last_arrival w; w_txbuf := w_txbuf w; w_script := w_script w; w_broker := w_broker w;
-     w_log := w_log w; w_handles := w_handles w |}.
+     w_log := w_log w; w_handles := w_handles w; w_waits := w_waits w |}.
 Definition upd_log (w : world) (l : text) : world :=
   {| w_sess := w_sess w; w_conn := w_conn w; w_live := w_live w; w_event := w_event w; w_now := w_now w; w_inq := w_inq w;
      w_last_arrival := w_last_arrival w; w_txbuf := w_txbuf w; w_script := w_script w; w_broker := w_broker w;
-     w_log := l :: w_log w; w_handles := w_handles w |}.
+     w_log := l :: w_log w; w_handles := w_handles w; w_waits := w_waits w |}.
 Definition upd_script (w : world) (sc : list (N * N)) : world :=
   {| w_sess := w_sess w; w_conn := w_conn w; w_live := w_live w; w_event := w_event w; w_now := w_now w; w_inq := w_inq w;
      w_last_arrival := w_last_arrival w; w_txbuf := w_txbuf w; w_script := sc; w_broker := w_broker w;
-     w_log := w_log w; w_handles := w_handles w |}.
+     w_log := w_log w; w_handles := w_handles w; w_waits := w_waits w |}.
 Definition upd_now (w : world) (t : N) : world :=
   {| w_sess := w_sess w; w_conn := w_conn w; w_live := w_live w; w_event := w_event w; w_now := t; w_inq := w_inq w;
      w_last_arrival := w_last_arrival w; w_txbuf := w_txbuf w; w_script := w_script w; w_broker := w_broker w;
-     w_log := w_log w; w_handles := w_handles w |}.
+     w_log := w_log w; w_handles := w_handles w; w_waits := w_waits w |}.
 Definition upd_inq (w : world) (q : list (N * bytes)) (last : N) : world :=
   {| w_sess := w_sess w; w_conn := w_conn w; w_live := w_live w; w_event := w_event w; w_now := w_now w; w_inq := q;
      w_last_arrival := last; w_txbuf := w_txbuf w; w_script := w_script w; w_broker := w_broker w;
-     w_log := w_log w; w_handles := w_handles w |}.
+     w_log := w_log w; w_handles := w_handles w; w_waits := w_waits w |}.
 Definition upd_txbuf (w : world) (b : bytes) : world :=
   {| w_sess := w_sess w; w_conn := w_conn w; w_live := w_live w; w_event := w_event w; w_now := w_now w; w_inq := w_inq w;
      w_last_arrival := w_last_arrival w; w_txbuf := b; w_script := w_script w; w_broker := w_broker w;
-     w_log := w_log w; w_handles := w_handles w |}.
+     w_log := w_log w; w_handles := w_handles w; w_waits := w_waits w |}.
 Definition upd_broker (w : world) (m : N) : world :=
   {| w_sess := w_sess w; w_conn := w_conn w; w_live := w_live w; w_event := w_event w; w_now := w_now w; w_inq := w_inq w;
      w_last_arrival := w_last_arrival w; w_txbuf := w_txbuf w; w_script := w_script w; w_broker := m;
-     w_log := w_log w; w_handles := w_handles w |}.
+     w_log := w_log w; w_handles := w_handles w; w_waits := w_waits w |}.
 Definition upd_handles (w : world) (h : list op) : world :=
   {| w_sess := w_sess w; w_conn := w_conn w; w_live := w_live w; w_event := w_event w; w_now := w_now w; w_inq := w_inq w;
      w_last_arrival := w_last_arrival w; w_txbuf := w_txbuf w; w_script := w_script w; w_broker := w_broker w;
-     w_log := w_log w; w_handles := h |}.
+     w_log := w_log w; w_handles := h; w_waits := w_waits w |}.
+
+Definition upd_waits (w : world) (n : N) : world :=
+  {| w_sess := w_sess w; w_conn := w_conn w; w_live := w_live w; w_event := w_event w; w_now := w_now w; w_inq := w_inq w;
+     w_last_arrival := w_last_arrival w; w_txbuf := w_txbuf w; w_script := w_script w; w_broker := w_broker w;
+     w_log := w_log w; w_handles := w_handles w; w_waits := n |}.
+
+Definition MAX_WAITS : N := 64.        (* an operation that has waited this often is dropped by the application *)
+Definition STUTTER_MS : N := 100.      (* re-poll interval while the awaited deadline has already expired *)
 
 (* Connection::handle_disconnect *)
 Definition w_hd (w : world) : world :=
@@ -187,14 +196,15 @@ Definition io_read (window : N) (deadline : option N) (w : world) : world * rres
         let target :=
           match deadline with
           | Some d =>
-              if d <=? w_now w then Some (w_now w + 1)
+              if d <=? w_now w then Some (w_now w + STUTTER_MS)
               else match t1 with Some t => Some (N.min t d) | None => Some d end
           | None => t1
           end in
+        let target := if MAX_WAITS <=? w_waits w then None else target in
         match target with
         | None => (upd_log w (pre ++ s2t "drop"), RCancel)    (* would wait for ever: the application gives up *)
         | Some t =>
-            let w1 := upd_log (upd_now w t) (s2t "t " ++ show_N t) in
+            let w1 := upd_log (upd_waits (upd_now w t) (w_waits w + 1)) (s2t "t " ++ show_N t) in
             let '(av1, _) := avail_split t (w_inq w1) in
             match av1 with
             | _ :: _ => deliver window amt (upd_script w1 rest)
